@@ -34,7 +34,7 @@ TRUSTED = ["ASan/UBSan/_GLIBCXX_ASSERTIONS/_GLIBCXX_SANITIZE_VECTOR as the detec
            "Linux loopback TCP/UDP semantics for the raw peers"]
 ALL_TAGS = ["send", "send.unregistered", "send.nodriver", "dsock", "dsock.pending", "ddriver.empty", "ddriver.busy",
             "step", "step.empty", "cancel", "cancel.finished", "shift", "shift.finished", "disc", "disc.selfdestroy",
-            "fut.value", "fut.broken", "fut.either", "skipped"]
+            "fut.value", "fut.broken", "skipped"]
 EXHAUSTIVE = {"thorough": False}
 SHRINK = True
 
